@@ -67,6 +67,11 @@ def _case(draw):
         pos = sorted(draw(st.lists(st.integers(0, len(ops)), min_size=4, max_size=4)))
         for off, (q, m) in enumerate(zip(pos, motif)):
             ops.insert(q + off, m)
+    if draw(st.integers(0, 3)) == 0:
+        # order-dependent motif: the leaf class is in use (its namespace cache is warm) while the class in the middle has
+        # never been touched, then a class-level assignment is made on that middle class, then another leaf is created
+        n = draw(st.sampled_from([1, 3, 0, 9]))     # l, sh, x, lr
+        ops[0:0] = [["new", 2, "", 0], ["cset", 1, n, draw(_k)], ["new", 2, "", 0]]
     return {"b_redeclares_x": draw(st.booleans()), "ops": ops}
 
 
